@@ -299,6 +299,61 @@ func TestVerifC11Lines(t *testing.T) {
 		}
 		run.Count("defective_files_accepted_harmlessly", 1)
 	}
+	// ---- a damaged line in the middle of a cache file (the cut line of an interrupted `sx arp --json >> file`),
+	// through the command's own loader, from a file and from stdin: the file is refused, or - if the scan is
+	// allowed to start with it - every complete line still maps its address to its own MAC, the lines after the
+	// damaged one included (a host with a line of its own must not silently fall back to the gateway)
+	for i := 0; i < run.Pick(48, 480)/run.NBatch()+1; i++ {
+		nGood := 2 + rng.Intn(6)
+		at := 1 + rng.Intn(nGood-1)
+		var lines []string
+		want := map[uint32]string{}
+		base := rng.Uint32() &^ 0xff
+		for k := 0; k < nGood; k++ {
+			a := base + uint32(k) + 1
+			m := c11macOf(a, 11)
+			want[a] = m.String()
+			lines = append(lines, fmt.Sprintf(`{"ip":"%s","mac":"%s","vendor":"v"}`, oracle.IPString(oracle.U32ToIP(a)), m))
+		}
+		full := fmt.Sprintf(`{"ip":"%s","mac":"02:00:00:aa:bb:cc","vendor":"cut"}`, oracle.IPString(oracle.U32ToIP(base+200)))
+		damaged := []string{full[:5+rng.Intn(len(full)-6)], "\x00\x00\x00", "sx: interrupted", `{"ip":"10.0.0.300","mac":"zz"}`, `{"ip":`, `[1,2]`}[rng.Intn(6)]
+		lines = append(lines[:at], append([]string{damaged}, lines[at:]...)...)
+		text := strings.Join(lines, "\n") + "\n"
+		viaStdin := i%2 == 0
+		run.Case(fmt.Sprintf("damaged%04d", i), map[string]interface{}{"stdin": viaStdin, "text": text})
+		o := &ipScanCmdOpts{}
+		restore := func() {}
+		if viaStdin {
+			pr, pw, _ := os.Pipe()
+			old := os.Stdin
+			os.Stdin = pr
+			restore = func() { os.Stdin = old; pr.Close() }
+			go func() { pw.Write([]byte(text)); pw.Close() }()
+		} else {
+			o.arpCacheFile = writeTemp(t.TempDir(), "arp.cache", text)
+		}
+		cache, err := o.parseARPCache()
+		restore()
+		run.Eval(1)
+		run.Count("damaged_files_checked", 1)
+		if err != nil {
+			run.Count("damaged_files_refused", 1)
+			continue
+		}
+		lost := 0
+		example := ""
+		for a, m := range want {
+			if got := c11get(cache, a, false); got.String() != m {
+				lost++
+				example = fmt.Sprintf("%s -> %v (line says %s)", oracle.IPString(oracle.U32ToIP(a)), got, m)
+			}
+		}
+		if lost > 0 {
+			run.Violation("lines:damaged-file-accepted-with-entries-lost", fmt.Sprintf("a cache file with a damaged line (%q at line %d of %d, stdin=%v) was accepted without error, but %d complete lines have no/wrong entry (e.g. %s): their probes would go to the gateway MAC", damaged, at+1, len(lines), viaStdin, lost, example), text)
+			continue
+		}
+		run.Count("damaged_files_accepted_harmlessly", 1)
+	}
 }
 
 func ipBytes(a uint32) []byte {
